@@ -38,7 +38,8 @@ CONSTANTS MapOrder,     \* sequence of map ids (strings); MapOrder[1] is the roo
           MaxLayers,    \* PushLayer bound per map
           MaxGen,       \* loads per handle (monotone counter; bounds ClearHandle)
           Ops,          \* enabled action kinds, see Next
-          Receivers,    \* maps the program calls methods on
+          Builders,     \* maps the program calls __setitem__ / clear on (and adds layers to)
+          Receivers,    \* maps the program calls get / [] / get_static_map on
           Phased,       \* BOOLEAN: build the tree first, `Seal`, then only access it
           KindChoices,  \* set of functions [Hd -> Kinds]: what load() returns
           ClsChoices,   \* set of functions [Names -> NameClasses]: lexical class of each name
@@ -89,6 +90,10 @@ Vis(m) == VisOf(layers[m])
 HeldIn(mp, ly, n) == \E x \in M : n \in Range(mp[x]) \/ \E i \in DOMAIN ly[x] : n \in Range(ly[x][i])
 BlankIn(mp, ly, m) == mp[m] = Empty /\ \A i \in DOMAIN ly[m] : ly[m][i] = Empty
 Held(n) == HeldIn(maps, layers, n)
+\* tree.py never resets the back-links of a node that drops out of every map (replaced, popped, cleared while
+\* shadowed), and nothing can read them through a map before the next assignment overwrites them: the model
+\* keeps back-links of held nodes only (the leniency "unreachable nodes may keep stale links", and 14x fewer states)
+Forget(f, mp, ly) == [n \in Nodes |-> IF HeldIn(mp, ly, n) THEN f[n] ELSE None]
 
 RECURSIVE Closure(_, _)
 Closure(S, k) == IF k = 0 THEN S ELSE Closure(S \cup UNION {Range(maps[x]) : x \in S}, k - 1)
@@ -146,7 +151,7 @@ Walk(t, cur, acur, p, avoid) ==
                        ab |-> ab1], nxt, anxt, Tail(p), avoid)
 
 SetItem(m, p, node) ==
-    /\ "set" \in Ops /\ Mutable /\ m \in Receivers
+    /\ "set" \in Ops /\ Mutable /\ m \in Builders
     \* generated domain: the value is an object that is not in any map right now (one parent pointer
     \* cannot describe two places) and the assignment creates no cycle
     /\ node # Root /\ node # m /\ ~Held(node) /\ (node \in M => m \notin Sub(node))
@@ -154,34 +159,34 @@ SetItem(m, p, node) ==
            t == w.t
            tg == w.tgt
            l == Last(p)
+           \* map: other_map.pop(last_key, None); dest_map[last_key] = value.  handle: the ChainMap writes its first layer
+           mp2 == IF node \in M THEN [t.mp EXCEPT ![tg] = Put(@, l, node)] ELSE [t.mp EXCEPT ![tg] = Drop(@, l)]
+           ly2 == IF node \in M THEN PopHandle(t.ly, tg, l) ELSE [t.ly EXCEPT ![tg][1] = Put(@, l, node)]
        IN /\ tg # None
-          /\ IF node \in M
-             THEN /\ layers' = PopHandle(t.ly, tg, l)                   \* other_map.pop(last_key, None)
-                  /\ maps' = [t.mp EXCEPT ![tg] = Put(@, l, node)]      \* dest_map[last_key] = value
-             ELSE /\ maps' = [t.mp EXCEPT ![tg] = Drop(@, l)]
-                  /\ layers' = [t.ly EXCEPT ![tg][1] = Put(@, l, node)] \* ChainMap writes to the first layer
-          /\ parent' = [t.pa EXCEPT ![node] = tg]
-          /\ key' = [t.ky EXCEPT ![node] = l]
+          /\ maps' = mp2 /\ layers' = ly2
+          /\ parent' = Forget([t.pa EXCEPT ![node] = tg], mp2, ly2)
+          /\ key' = Forget([t.ky EXCEPT ![node] = l], mp2, ly2)
           /\ abs' = [t.ab EXCEPT ![w.atgt] = Put(@, l, <<IF node \in M THEN "m" ELSE "h", node>>)]
     /\ ret' = NoRet /\ loadedNow' = {}
     /\ UNCHANGED <<cache, fixed, sealed, snap>>
 
 \* what DirectoryResourcePopulator does for nest_on_conflict: handles.maps.insert(0, {})
 PushLayer(m) ==
-    /\ "push" \in Ops /\ Mutable /\ m \in Receivers /\ Len(layers[m]) < MaxLayers
+    /\ "push" \in Ops /\ Mutable /\ m \in Builders /\ Len(layers[m]) < MaxLayers
     /\ layers' = [layers EXCEPT ![m] = <<Empty>> \o @]
     /\ ret' = NoRet /\ loadedNow' = {}
     /\ UNCHANGED <<maps, parent, key, abs, cache, fixed, sealed, snap>>
 
 \* ResourceMap.clear: children whose parent is this map are detached, then both tables are emptied
 Clear(m) ==
-    /\ "clear" \in Ops /\ Mutable /\ m \in Receivers
+    /\ "clear" \in Ops /\ Mutable /\ m \in Builders
     /\ LET hs == IF ClearAllLayers THEN UNION {Range(layers[m][i]) : i \in DOMAIN layers[m]} ELSE Range(Vis(m))
            gone == {n \in hs \cup Range(maps[m]) : parent[n] = m}
-       IN /\ parent' = [n \in Nodes |-> IF n \in gone THEN None ELSE parent[n]]
-          /\ key' = [n \in Nodes |-> IF n \in gone THEN None ELSE key[n]]
-    /\ maps' = [maps EXCEPT ![m] = Empty]
-    /\ layers' = [layers EXCEPT ![m] = [i \in DOMAIN @ |-> IF i = 1 \/ ClearAllLayers THEN Empty ELSE @[i]]]
+           mp2 == [maps EXCEPT ![m] = Empty]
+           ly2 == [layers EXCEPT ![m] = [i \in DOMAIN @ |-> IF i = 1 \/ ClearAllLayers THEN Empty ELSE @[i]]]
+       IN /\ maps' = mp2 /\ layers' = ly2
+          /\ parent' = Forget([n \in Nodes |-> IF n \in gone THEN None ELSE parent[n]], mp2, ly2)
+          /\ key' = Forget([n \in Nodes |-> IF n \in gone THEN None ELSE key[n]], mp2, ly2)
     /\ abs' = [abs EXCEPT ![m] = Empty]
     /\ ret' = NoRet /\ loadedNow' = {}
     /\ UNCHANGED <<cache, fixed, sealed, snap>>
@@ -309,7 +314,9 @@ SDelAttr(x, n) == /\ "smut" \in Ops /\ x \in SnapNodes /\ Plain(<<"exc", "ValueE
                   /\ UNCHANGED <<tree, fixed, sealed, snap>>
 
 ----------------------------------------------------------------------------
-Next == \/ (\E m \in M, p \in Paths, n \in Nodes : SetItem(m, p, n))
+\* (the guards of SetItem again, as filters on the quantifier domains: far fewer instances for TLC to evaluate)
+Loose == {n \in Nodes \ {Root} : ~Held(n)}
+Next == \/ (\E n \in Loose : \E m \in {x \in Builders \ {n} : n \in M => x \notin Sub(n)} : \E p \in Paths : SetItem(m, p, n))
         \/ (\E m \in M : PushLayer(m) \/ Clear(m) \/ Snapshot(m))
         \/ Seal
         \/ (\E h \in Hd : Call(h) \/ ClearHandle(h))
@@ -317,12 +324,6 @@ Next == \/ (\E m \in M, p \in Paths, n \in Nodes : SetItem(m, p, n))
         \/ (\E x \in M, n \in Names : SAttr(x, n) \/ SItem(x, n) \/ SGet(x, n) \/ SSetAttr(x, n) \/ SDelAttr(x, n))
 
 Spec == Init /\ [][Next]_vars
-
-\* A node that no map holds keeps whatever back-links it had (tree.py never resets them, and nothing reads
-\* them before the next assignment overwrites them): states that differ only there are explored once.
-View == <<maps, layers, [n \in Nodes |-> IF Held(n) THEN parent[n] ELSE None],
-          [n \in Nodes |-> IF Held(n) THEN key[n] ELSE None],
-          cached, value, gen, kind, cls, sealed, snapRoot, sslot, sdict, shn, ret, loadedNow, abs, loads>>
 
 ----------------------------------------------------------------------------
 (* Declarative layer                                                       *)
